@@ -441,6 +441,14 @@ class CMakeTraceParser:
 
         fn = None
 
+        if name:
+            # add_custom_target(Name [ALL] [command1 [args1...]] ...): the
+            # first command needs no COMMAND keyword
+            args = args[2:] if args[1:2] == ['ALL'] else args[1:]
+            if args and args[0] not in magic_keys:
+                fn = handle_command
+                target.command += [[]]
+
         for i in args:
             if i in magic_keys:
                 if i == 'OUTPUT':
